@@ -110,8 +110,7 @@ def backrefGen (ctx : Ctx) (g : Nat) : Gen := fun p st =>
   if g ≥ st.startBr.length then .nil (st.setPanic panicBackrefIndex) else
   match getO st.startBr g, getO st.endBr g with
   | some s, some e =>
-    if s == e then .once p st
-    else if e < s then .nil (st.setPanic panicBackrefUnderflow)
+    if e ≤ s then .once p st     -- empty, or the group was re-entered and has not completed again (fix a635aaf)
     else
       let l := e - s
       if p + l - 1 ≥ ctx.len then .nil st
